@@ -1,7 +1,7 @@
 (* C02 for the generic differ with the tables read from /repo (Gen/NbConfig.v). *)
 From Coq Require Import List NArith ZArith Bool Lia String.
 From NB Require Import Base.Res Base.Json Base.PyStr Diff.DiffFormat Diff.Patch Diff.GenericDiff Diff.Wf
-     Diff.Codec Diff.StringProofs Diff.StringMaster Diff.MasterProofs Gen.NbConfig.
+     Diff.Codec Diff.StringProofs Diff.StringMaster Diff.MasterProofs Diff.SpecProofs Gen.NbConfig.
 Import ListNotations.
 
 Lemma generic_roundtrip O n a b :
@@ -33,3 +33,25 @@ Example roundtrip_example :
   let b := JArr [JFlt 1 0; JObj [(of_ascii "k"%string, JInt 1)]; JArr [JNull]] in
   exists d, diff_default ex_oracles generic_config 10 a b = Ok d /\ patch 5 a d = Ok b /\ d <> [].
 Proof. eexists. split; [vm_compute; reflexivity|]. split; [vm_compute; reflexivity | discriminate]. Qed.
+
+(* the diff nbdime produces, read by the position-wise meaning of the format (no cursor, no flattening),
+   is well-formed and denotes the target: an independent implementation following the documented
+   format obtains the same result *)
+Lemma generic_diff_denotes_target O n a b :
+  opcodes_valid O -> 2 * depth a < n -> wfj a = true -> wfj b = true -> same_container a b ->
+  exists d, diff_default O generic_config n a b = Ok d /\ forall f, depth a < f -> check_diff f a b d = true.
+Proof.
+  intros Hops Hn Hwa Hwb Hc.
+  destruct (generic_roundtrip O n a b Hops Hn Hwa Hwb Hc) as (d & Hd & Hp & Hw).
+  exists d. split; [exact Hd|]. intros f Hf. unfold check_diff. rewrite (Hw f Hf). cbn [andb].
+  rewrite (check_diff_of_patch f a b d Hwa (Hw f Hf) (Hp f Hf)). apply json_eqb_refl.
+Qed.
+
+Example spec_example :
+  let a := JArr [JInt 1; JObj [(of_ascii "k"%string, JBool true)]; JStr (of_ascii "ab"%string)] in
+  let d := [DAddRange (KI 0) (VList [JNull]); DRemoveRange (KI 0) 1;
+            DPatch (KI 1) [DReplace (KS (of_ascii "k"%string)) (JInt 1)];
+            DPatch (KI 2) [DPatch (KI 0) [DAddRange (KI 1) (VStr (of_ascii "x"%string))]]] in
+  wf_diff 4 a d = true /\ patch 4 a d = Ok (spec_patch 4 a d)
+  /\ spec_patch 4 a d = JArr [JNull; JObj [(of_ascii "k"%string, JInt 1)]; JStr (of_ascii "axb"%string)].
+Proof. vm_compute. repeat split. Qed.
